@@ -113,6 +113,7 @@ def redis_ops(kind):
                 ops.append(("set", c, k, vn))
             ops.append(("get", c, k)); ops.append(("cached", c, k)); ops.append(("delete", c, k)); ops.append(("contains", c, k)); ops.append(("ttl", c, k))
             ops.append(("nested" if kind == "redis-dict" else "append", c, k))
+            ops.append(("writeback", c, k)); ops.append(("wrongtype", c, k))
         ops.append(("iter", c)); ops.append(("len", c)); ops.append(("inval", c)); ops.append(("invalall", c))
     ops.append(("reopen",))
     return ops
@@ -150,6 +151,18 @@ def apply_redis(sut, ref, op, kind):
                 return "skip"      # bound: lists of at most 3 members
             st[op[2]].append({"e": 9})
             ref[op[2]].append({"e": 9})
+        elif name == "writeback":
+            # the container handed out for a key is stored back under that key (what the engine does after an in-place edit): nothing changes
+            if op[2] not in ref or not ref[op[2]]:
+                return "skip"
+            st[op[2]] = st[op[2]]
+        elif name == "wrongtype":
+            # a value the store kind cannot hold is refused with TypeError and changes nothing
+            try:
+                st[op[2]] = 5
+                return ("wrong-type-accepted", "a number was stored under %s" % op[2])
+            except TypeError:
+                pass
         elif name == "get":
             got = plain(st.get(op[2]))
             want = copy.deepcopy(ref.get(op[2]))
